@@ -365,9 +365,10 @@ RENDER_TEMPLATES = {
     "/inc.html": "{inc:${who}}",
     "/ns.html": '<%def name="nd(a)">ND(${a}|${who})</%def>',
     "/main.html": '<%inherit file="/base.html"/><%namespace name="n" file="/ns.html"/>'
-                  'M(${who})<%include file="/inc.html"/>${n.nd(who)}${cd(who)}\n'
+                  'M(${who})<%include file="/inc.html"/>${n.nd(who)}${cd(who)}${sh()}\n'
                   '% for i in range(2):\n${loop.index}${who}\n% endfor\n'
-                  '<%def name="cd(a)" cached="True" cache_key="k-${a}">CD(${a})</%def>',
+                  '<%def name="cd(a)" cached="True" cache_key="k-${a}" cache_timeout="30" cache_type="tA">CD(${a})</%def>'
+                  '<%def name="sh()" cached="True" cache_type="tB">SH</%def>',
 }
 
 
@@ -378,6 +379,8 @@ def run_render_schedule(strategy, res, rc, nthreads=2, free=False):
     for u, t in RENDER_TEMPLATES.items():
         lk.put_string(u, t)
     tpl = lk.get_template("/main.html")
+    import sys as _sys1
+
     solo = {}
     for i in range(nthreads):
         lk2 = _st["TemplateLookup"](cache_impl="c16dict")
@@ -385,6 +388,7 @@ def run_render_schedule(strategy, res, rc, nthreads=2, free=False):
             lk2.put_string(u, t)
         solo[i] = lk2.get_template("/main.html").render_unicode(who="W%d" % i)
     outs = {}
+    del _sys1.modules["verif_c16_cache"].DictImpl.calls[:]
     if free:
         import sys as _sys
 
@@ -441,6 +445,17 @@ def run_render_schedule(strategy, res, rc, nthreads=2, free=False):
         if sum(1 for a, b in zip(s.trace, s.trace[1:]) if a[0] != b[0]) >= 2:
             res.nontrivial("c16r", tuple(c for _, c, _ in strategy.decisions))
     res.evaluations += 1
+    # first-use initialisation of the cache: every backend call made for a section carries that section's arguments,
+    # whichever thread initialises the Template's cache and the section's argument record
+    import sys as _sys2
+
+    for key, kw in _sys2.modules["verif_c16_cache"].DictImpl.calls:
+        res.count("cache_backend_calls_checked")
+        want = {"timeout": 30, "type": "tA"} if key.startswith("k-") else {"type": "tB"}
+        if kw != want:
+            res.violate("cache-arguments-under-concurrency", "backend call for key %r received %r, the section declares %r (schedule %r)" % (
+                key, kw, want, [c for _, c, _ in getattr(strategy, "decisions", [])][:60]), replay_case=rc)
+            break
     for i in range(nthreads):
         o = outs.get(i)
         if o is None or o[0] != "out" or o[1] != solo[i]:
@@ -461,13 +476,19 @@ def register_cache():
             super().__init__(cache)
             self.store = {}
 
+        calls = []  # (key, kw) of every get_or_create, for the first-use monitor
+
         def get_or_create(self, key, creation_function, **kw):
-            if key not in self.store:
-                self.store[key] = creation_function()
-            return self.store[key]
+            DictImpl.calls.append((key, dict(kw)))
+            # like real backends, the storage is chosen by the arguments the section carries
+            k = (kw.get("type"), key)
+            if k not in self.store:
+                self.store[k] = creation_function()
+            return self.store[k]
 
         def invalidate(self, key, **kw):
-            self.store.pop(key, None)
+            for k in [k for k in self.store if k[1] == key]:
+                self.store.pop(k, None)
 
     mod = type(sys)("verif_c16_cache")
     mod.DictImpl = DictImpl
